@@ -104,6 +104,13 @@ func (in *inliner) eligible(call *ast.CallExpr, stack []*types.Func, depth int) 
 			return nil
 		}
 	}
+	if isTypePredicate(callee) {
+		// func p(x T) bool { switch x.(type) { ... return <constant> } }: a
+		// predicate on the dynamic type stays a call; rules evaluate it per
+		// type (a copy of its switch would not be correlated with the caller's
+		// own type switch on the same value)
+		return nil
+	}
 	nodes := 0
 	ok := true
 	ast.Inspect(callee.Decl.Body, func(n ast.Node) bool {
@@ -150,6 +157,46 @@ func (in *inliner) eligible(call *ast.CallExpr, stack []*types.Func, depth int) 
 		}
 	}
 	return callee
+}
+
+// isTypePredicate: the body is one type switch over a parameter (plus an
+// optional final return) in which every clause only returns boolean constants.
+func isTypePredicate(f *Func) bool {
+	body := f.Decl.Body.List
+	if len(body) == 0 || len(body) > 2 {
+		return false
+	}
+	ts, ok := body[0].(*ast.TypeSwitchStmt)
+	if !ok {
+		return false
+	}
+	sig := f.Obj.Type().(*types.Signature)
+	if sig.Results().Len() != 1 || sig.Params().Len() != 1 {
+		return false
+	}
+	if b, ok := sig.Results().At(0).Type().Underlying().(*types.Basic); !ok || b.Kind() != types.Bool {
+		return false
+	}
+	constRet := func(stmts []ast.Stmt) bool {
+		if len(stmts) != 1 {
+			return false
+		}
+		r, ok := stmts[0].(*ast.ReturnStmt)
+		if !ok || len(r.Results) != 1 {
+			return false
+		}
+		tv, ok := f.Info().Types[r.Results[0]]
+		return ok && tv.Value != nil
+	}
+	for _, cl := range ts.Body.List {
+		if !constRet(cl.(*ast.CaseClause).Body) {
+			return false
+		}
+	}
+	if len(body) == 2 && !constRet(body[1:]) {
+		return false
+	}
+	return true
 }
 
 // leadingDefers returns the defer statements of a body that can be replayed
